@@ -2,6 +2,7 @@
 from __future__ import annotations
 
 import ast
+import re
 from typing import Dict, Iterable, List, Optional, Sequence, Set, Tuple
 
 from ..cfg import CFG, EXC, NORMAL, Frame, Node, handler_classes
@@ -270,6 +271,53 @@ def fold_str(ctx: Ctx, f: FunctionInfo, e: Optional[ast.AST], at: int, depth: in
         if l is None and r is None:
             return None
         return (l if l is not None else "\x00") + (r if r is not None else "\x00")
+    # "{}/{}.inflight".format(a, b)  /  "%s/%s" % (a, b)  /  "/".join([a, b])  /  os.path.join(a, b): the same text as an f-string
+    if isinstance(e, ast.Call) and isinstance(e.func, ast.Attribute) and e.func.attr == "format" and not any(k.arg is None for k in e.keywords):
+        tmpl = fold_str(ctx, f, e.func.value, at, depth + 1)
+        if tmpl is not None and "\x00" not in tmpl:
+            import string
+            out_, auto = [], 0
+            try:
+                for lit, field, spec, conv in string.Formatter().parse(tmpl):
+                    out_.append(lit)
+                    if field is None:
+                        continue
+                    if spec or conv:
+                        out_.append("\x00")
+                        continue
+                    if field == "":
+                        arg = e.args[auto] if auto < len(e.args) else None
+                        auto += 1
+                    elif field.isdigit():
+                        arg = e.args[int(field)] if int(field) < len(e.args) else None
+                    else:
+                        arg = next((k.value for k in e.keywords if k.arg == field), None)
+                    x = fold_str(ctx, f, arg, at, depth + 1) if arg is not None else None
+                    out_.append(x if x is not None else "\x00")
+                return "".join(out_)
+            except Exception:
+                return s
+    if isinstance(e, ast.BinOp) and isinstance(e.op, ast.Mod):
+        tmpl = fold_str(ctx, f, e.left, at, depth + 1)
+        if tmpl is not None and "\x00" not in tmpl:
+            args = list(e.right.elts) if isinstance(e.right, ast.Tuple) else [e.right]
+            parts = re.split(r"%[sdr]", tmpl)
+            if len(parts) == len(args) + 1 and "%" not in "".join(parts).replace("%%", ""):
+                out_ = [parts[0].replace("%%", "%")]
+                for a_, p_ in zip(args, parts[1:]):
+                    x = fold_str(ctx, f, a_, at, depth + 1)
+                    out_.append(x if x is not None else "\x00")
+                    out_.append(p_.replace("%%", "%"))
+                return "".join(out_)
+    if isinstance(e, ast.Call) and (dotted(e.func) or "") in ("os.path.join", "posixpath.join") and e.args and not e.keywords:
+        xs = [fold_str(ctx, f, a_, at, depth + 1) for a_ in e.args]
+        if any(x is not None for x in xs):
+            return "/".join((x if x is not None else "\x00").rstrip("/") if i < len(xs) - 1 else (x if x is not None else "\x00") for i, x in enumerate(xs))
+    if isinstance(e, ast.Call) and isinstance(e.func, ast.Attribute) and e.func.attr == "join" and isinstance(e.func.value, ast.Constant) \
+            and isinstance(e.func.value.value, str) and len(e.args) == 1 and isinstance(e.args[0], (ast.List, ast.Tuple)):
+        xs = [fold_str(ctx, f, a_, at, depth + 1) for a_ in e.args[0].elts]
+        if any(x is not None for x in xs):
+            return e.func.value.value.join(x if x is not None else "\x00" for x in xs)
     return s
 
 
@@ -640,8 +688,11 @@ def str_consts(ctx: Ctx, f: FunctionInfo, e: Optional[ast.AST], at: Optional[int
 
 def code_branches(ctx: Ctx, f: FunctionInfo, hn: Node):
     """Equality / membership dispatch inside a handler: yields (branch, codes, raises on the MATCH side only,
-    raises on the OTHER side only, nodes on the match side only, nodes on the other side only)."""
+    raises on the OTHER side only, nodes on the match side only, nodes on the other side only).  A short-circuit chain over
+    one subject (`c == "a" or c == "b"`, `c != "a" and c != "b"`) is ONE dispatch with the union of its codes - the same
+    decision as `c in ("a", "b")`."""
     g = ctx.cfg(f)
+    items = {}
     for b in g.nodes:
         if b.kind != "branch" or not in_handler(b, hn.ast) or b.id not in g.reachable():  # type: ignore[arg-type]
             continue
@@ -655,13 +706,131 @@ def code_branches(ctx: Ctx, f: FunctionInfo, hn: Node):
             ml, ol = "false", "true"
         else:
             continue
-        mt, ot = edge_target(g, b, ml), edge_target(g, b, ol)
+        items[b.id] = (b, ec, edge_target(g, b, ml), edge_target(g, b, ol))
+    absorbed = set()
+    chains = []
+    for bid in sorted(items):
+        if bid in absorbed:
+            continue
+        b, ec, mt, ot = items[bid]
+        codes = list(str_consts(ctx, f, ec[0], ec[1]))
+        subj = norm_text(ec[0].left)
+        cur_ot = ot
+        while cur_ot in items and cur_ot not in absorbed and cur_ot != bid:
+            nb, nec, nmt, not_ = items[cur_ot]
+            if nmt != mt or norm_text(nec[0].left) != subj or len([1 for _p, lb in g.pred.get(cur_ot, []) if lb in NORMAL]) != 1:
+                break
+            absorbed.add(cur_ot)
+            codes += list(str_consts(ctx, f, nec[0], nec[1]))
+            cur_ot = not_
+        chains.append((b, codes, mt, cur_ot))
+    for b, codes, mt, ot in chains:
         mreach = reachable_from(g, mt, NORMAL) if mt is not None else set()
         oreach = reachable_from(g, ot, NORMAL) if ot is not None else set()
         m_only, o_only = mreach - oreach, oreach - mreach
-        yield (b, str_consts(ctx, f, ec[0], ec[1]),
+        yield (b, codes,
                {g.nodes[x].raised for x in m_only if g.nodes[x].kind == "raise"},
                {g.nodes[x].raised for x in o_only if g.nodes[x].kind == "raise"}, m_only, o_only)
+
+
+def regex_flags(e: Optional[ast.AST]) -> Optional[int]:
+    """Value of a flags expression of re.compile: `re.VERBOSE`, `re.X | re.I`, an int literal; None when not evaluable."""
+    import re as _re
+    if e is None:
+        return 0
+    if isinstance(e, ast.Constant) and isinstance(e.value, int):
+        return e.value
+    if isinstance(e, ast.Attribute) and isinstance(e.value, ast.Name) and e.value.id in ("re", "_re", "regex"):
+        v = getattr(_re, e.attr, None)
+        return int(v) if isinstance(v, (int, _re.RegexFlag)) else None
+    if isinstance(e, ast.BinOp) and isinstance(e.op, ast.BitOr):
+        a, b = regex_flags(e.left), regex_flags(e.right)
+        return None if a is None or b is None else a | b
+    return None
+
+
+def compiled_regex(ctx: Ctx, f_or_mod, cdef: Optional[ast.AST]):  # type: ignore[no-untyped-def]
+    """re.compile(<constant pattern>[, <flags>]) as a compiled pattern object (flags honoured: re.VERBOSE rewrites, named
+    groups), or None.  Only the regex is compiled - nothing of the package is run."""
+    import re as _re
+    if not (isinstance(cdef, ast.Call) and (dotted(cdef.func) or "").split(".")[-1] == "compile" and cdef.args):
+        return None
+    mod = getattr(f_or_mod, "module", f_or_mod)
+    pat = ctx.prog.const_str(cdef.args[0], mod, f_or_mod if hasattr(f_or_mod, "module") else None)
+    if pat is None and isinstance(cdef.args[0], ast.Constant) and isinstance(cdef.args[0].value, str):
+        pat = cdef.args[0].value
+    fl = regex_flags(cdef.args[1] if len(cdef.args) > 1 else kwarg(cdef, "flags"))
+    if pat is None or fl is None:
+        return None
+    try:
+        return _re.compile(pat, fl)
+    except Exception:
+        return None
+
+
+def regex_group_is_digits(rx, group) -> bool:  # type: ignore[no-untyped-def]
+    """Does capture group `group` (index or name) of the compiled pattern match decimal digits only (\\d+ / [0-9]+ / \\d{n,m})?"""
+    try:
+        import re._parser as sre_parse  # py311+
+    except ImportError:  # pragma: no cover
+        import sre_parse  # type: ignore
+    try:
+        tree = sre_parse.parse(rx.pattern, rx.flags)
+    except Exception:
+        return False
+    if isinstance(group, str):
+        group = rx.groupindex.get(group)
+    if not isinstance(group, int) or group < 1:
+        return False
+
+    def find(items):  # type: ignore[no-untyped-def]
+        for op, av in items:
+            if str(op) == "SUBPATTERN":
+                gid, _a, _b, sub = av
+                if gid == group:
+                    return list(sub)
+                r = find(list(sub))
+                if r is not None:
+                    return r
+            elif str(op) in ("MAX_REPEAT", "MIN_REPEAT"):
+                r = find(list(av[2]))
+                if r is not None:
+                    return r
+            elif str(op) == "BRANCH":
+                for alt in av[1]:
+                    r = find(list(alt))
+                    if r is not None:
+                        return r
+        return None
+
+    sub = find(list(tree))
+    if not sub:
+        return False
+
+    def digits_only(items) -> bool:  # type: ignore[no-untyped-def]
+        for op, av in items:
+            so = str(op)
+            if so in ("MAX_REPEAT", "MIN_REPEAT"):
+                if av[0] < 1 or not digits_only(list(av[2])):
+                    return False
+            elif so == "IN":
+                for o2, a2 in av:
+                    if str(o2) == "CATEGORY" and "DIGIT" in str(a2) and "NOT" not in str(a2):
+                        continue
+                    if str(o2) == "RANGE" and chr(a2[0]) >= "0" and chr(a2[1]) <= "9":
+                        continue
+                    if str(o2) == "LITERAL" and chr(a2).isdigit():
+                        continue
+                    return False
+            elif so == "LITERAL":
+                if not chr(av).isdigit():
+                    return False
+            else:
+                return False
+        return True
+
+    # \d also matches non-ASCII decimal digits for str patterns: int() accepts exactly those, so it still converts
+    return digits_only(sub)
 
 
 def record_field_arg(ctx: Ctx, call: Optional[ast.AST], attr: str) -> Optional[ast.AST]:
@@ -971,6 +1140,9 @@ def concrete_eval(ctx: Ctx, f: FunctionInfo, e: Optional[ast.AST], env: Dict[str
                     return v[idx]
         if not defs and isinstance(f.module.consts.get(e.id), ast.Dict):
             return DictVal(f.module.consts[e.id])  # type: ignore[arg-type]
+        if not defs and isinstance(f.module.consts.get(e.id), ast.Constant) and isinstance(f.module.consts[e.id].value, (str, int)) \
+                and not isinstance(f.module.consts[e.id].value, bool):  # type: ignore[union-attr]
+            return f.module.consts[e.id].value  # type: ignore[union-attr]  # a module-level named constant
         return UNKNOWN
     if isinstance(e, ast.Attribute):
         dn_ = dotted(e)
@@ -979,6 +1151,8 @@ def concrete_eval(ctx: Ctx, f: FunctionInfo, e: Optional[ast.AST], env: Dict[str
         em = enum_member(ctx, e)
         if em is not None:
             return em
+        if e.attr == "hex" and isinstance(e.value, ast.Call) and (dotted(e.value.func) or "").split(".")[-1] == "uuid4" and "uuid4().hex" in env:
+            return env["uuid4().hex"]  # scenario: the 32 hex digits of a random UUID
         base = ev(e.value)
         if isinstance(base, EnumVal) and e.attr == "value":
             return base.value
@@ -1076,6 +1250,15 @@ def concrete_eval(ctx: Ctx, f: FunctionInfo, e: Optional[ast.AST], env: Dict[str
         if isinstance(a, (int, float)) and isinstance(b, (int, float)) and not isinstance(a, bool) and not isinstance(b, bool):
             return a + b
         return UNKNOWN
+    if isinstance(e, ast.BinOp) and isinstance(e.op, ast.Mod):
+        a, b = ev(e.left), ev(e.right)
+        if isinstance(a, str) and (isinstance(b, (str, int)) or (isinstance(b, tuple) and not isinstance(b, PartialTuple)
+                                                                 and all(isinstance(x, (str, int)) for x in b))) and not isinstance(b, bool):
+            try:
+                return a % b
+            except Exception:
+                return UNKNOWN
+        return UNKNOWN
     if isinstance(e, ast.BinOp) and isinstance(e.op, ast.Sub):
         a, b = ev(e.left), ev(e.right)
         if isinstance(a, (int, float)) and isinstance(b, (int, float)) and not isinstance(a, bool) and not isinstance(b, bool):
@@ -1147,6 +1330,17 @@ def concrete_eval(ctx: Ctx, f: FunctionInfo, e: Optional[ast.AST], env: Dict[str
         if isinstance(fn, ast.Name) and fn.id == "len" and len(e.args) == 1:
             v = ev(e.args[0])
             return len(v) if isinstance(v, (tuple, list, str, dict, set, frozenset)) else UNKNOWN
+        if isinstance(fn, ast.Attribute) and fn.attr == "format" and not any(k.arg is None for k in e.keywords) \
+                and not any(isinstance(a_, ast.Starred) for a_ in e.args):
+            v = ev(fn.value)
+            args = [ev(a_) for a_ in e.args]
+            kws = {k.arg: ev(k.value) for k in e.keywords}
+            if isinstance(v, str) and all(isinstance(a_, (str, int)) and not isinstance(a_, bool) for a_ in args + list(kws.values())):
+                try:
+                    return v.format(*args, **kws)
+                except Exception:
+                    return UNKNOWN
+            return UNKNOWN
         if isinstance(fn, ast.Attribute) and fn.attr in ("lower", "upper", "strip") and not e.args:
             v = ev(fn.value)
             return getattr(v, fn.attr)() if isinstance(v, str) else UNKNOWN
@@ -1166,11 +1360,10 @@ def concrete_eval(ctx: Ctx, f: FunctionInfo, e: Optional[ast.AST], env: Dict[str
             cdef = f.module.consts.get(fn.value.id)
             v = ev(e.args[0])
             if isinstance(cdef, ast.Call) and (dotted(cdef.func) or "") == "re.compile" and cdef.args and isinstance(v, str):
-                pat = ctx.prog.const_str(cdef.args[0], f.module, f)
-                if pat is not None:
-                    import re as _re
+                rx_ = compiled_regex(ctx, f, cdef)
+                if rx_ is not None:
                     try:
-                        mm_ = getattr(_re.compile(pat), fn.attr)(v)
+                        mm_ = getattr(rx_, fn.attr)(v)
                     except Exception:
                         return UNKNOWN
                     return MatchVal(mm_) if mm_ is not None else None
@@ -1196,6 +1389,53 @@ def concrete_eval(ctx: Ctx, f: FunctionInfo, e: Optional[ast.AST], env: Dict[str
                 import posixpath
                 return posixpath.basename(v) if fn.attr == "basename" else posixpath.dirname(v)
             return UNKNOWN
+        # a small helper of the package (`self._key_root()`, `_join(a, b)`): evaluated under the same scenario - its
+        # parameters are the evaluated arguments, `self.<attr>` entries of the scenario carry over for a method on self;
+        # the value is taken only when every return path yields the same concrete value
+        if depth < 8:
+            try:
+                cal = ctx.prog.resolve_call(e, f)
+            except Exception:
+                cal = None
+            if cal is not None and cal.kind == "func" and len(cal.funcs) == 1 and not isinstance(cal.funcs[0].node, ast.Lambda) \
+                    and not any(isinstance(a_, ast.Starred) for a_ in e.args) and not any(k.arg is None for k in e.keywords):
+                t = cal.funcs[0]
+                on_self = isinstance(fn, ast.Attribute) and isinstance(fn.value, ast.Name) and fn.value.id == (f.self_name() or "\x00")
+                pnames = [p_.name for p_ in t.params if not (t.cls is not None and not t.is_static and p_ is t.params[0])]
+                inner: Dict[str, object] = {}
+                if on_self and t.self_name():
+                    for k_, v_ in env.items():
+                        if isinstance(k_, str) and k_.startswith((f.self_name() or "self") + "."):
+                            inner[t.self_name() + k_[len(f.self_name() or "self"):]] = v_
+                okb = len(e.args) <= len(pnames)
+                for i_, a_ in enumerate(e.args[:len(pnames)]):
+                    inner[pnames[i_]] = ev(a_)
+                for k in e.keywords:
+                    if k.arg in pnames:
+                        inner[k.arg] = ev(k.value)
+                    else:
+                        okb = False
+                for p_ in t.params:
+                    if p_.name in pnames and p_.name not in inner:
+                        if p_.default is None:
+                            okb = False
+                        else:
+                            inner[p_.name] = concrete_eval(ctx, t, p_.default, {}, ctx.cfg(t).entry, depth + 1)
+                if okb and not any(v_ is UNKNOWN for k_, v_ in inner.items() if k_ in pnames):
+                    tg = ctx.cfg(t)
+                    rets = [n_.id for n_ in tg.nodes if n_.kind == "return"]
+                    vals = []
+                    try:
+                        for nid, store, _asm in explore(ctx, t, [tg.entry], inner, stop=rets):
+                            n_ = tg.nodes[nid]
+                            if n_.kind == "return":
+                                scen = dict(inner)
+                                scen.update({k_: v_ for k_, v_ in store.items() if isinstance(k_, str)})
+                                vals.append(concrete_eval(ctx, t, n_.ast.value, scen, nid, depth + 1) if n_.ast is not None and n_.ast.value is not None else None)  # type: ignore[union-attr]
+                    except Exception:
+                        vals = [UNKNOWN]
+                    if vals and all(v_ is not UNKNOWN for v_ in vals) and all(v_ == vals[0] for v_ in vals):
+                        return vals[0]
         if isinstance(fn, ast.Name):
             # EnumClass(value)
             for ci in ctx.prog.classes.values():
@@ -1630,3 +1870,98 @@ def walk_all(ctx: Ctx, f: FunctionInfo) -> List[ast.AST]:
                 seen.add(id(x))
                 out.append(x)
     return out
+
+
+# ------------------------------------------------------------- module-level numeric constants
+def module_const_number(ctx: Ctx, mod, e: Optional[ast.AST], env: Optional[Dict[str, object]] = None, depth: int = 0) -> Optional[object]:
+    """The number a module-level constant expression denotes, or None when it is not a compile-time number: literals,
+    arithmetic, other module constants (`24 * _MS_PER_HOUR`), single-return pure module helpers applied to such values
+    (`_hours_ms(24)`), int()/float()/round() and `timedelta(<unit>=n).total_seconds()`.  Nothing is executed; an environment
+    read, a clock, an attribute of an object or any unknown call is None."""
+    if e is None or depth > 8:
+        return None
+    env = env or {}
+    ev = lambda x: module_const_number(ctx, mod, x, env, depth + 1)  # noqa: E731
+    if isinstance(e, ast.Constant):
+        return e.value if isinstance(e.value, (int, float)) and not isinstance(e.value, bool) else None
+    if isinstance(e, ast.Name):
+        if e.id in env:
+            return env[e.id]
+        return module_const_number(ctx, mod, mod.consts.get(e.id), {}, depth + 1) if e.id in mod.consts else None
+    if isinstance(e, ast.UnaryOp) and isinstance(e.op, (ast.USub, ast.UAdd)):
+        v = ev(e.operand)
+        return None if v is None else (-v if isinstance(e.op, ast.USub) else v)
+    if isinstance(e, ast.BinOp):
+        l, r = ev(e.left), ev(e.right)
+        if l is None or r is None:
+            return None
+        try:
+            if isinstance(e.op, ast.Add):
+                return l + r
+            if isinstance(e.op, ast.Sub):
+                return l - r
+            if isinstance(e.op, ast.Mult):
+                return l * r
+            if isinstance(e.op, ast.FloorDiv):
+                return l // r
+            if isinstance(e.op, ast.Div):
+                return l / r
+            if isinstance(e.op, ast.Pow) and abs(r) <= 16:
+                return l ** r
+        except Exception:
+            return None
+        return None
+    if isinstance(e, ast.Call):
+        d = dotted(e.func) or ""
+        if d in ("int", "float", "round") and len(e.args) == 1 and not e.keywords:
+            v = ev(e.args[0])
+            return None if v is None else {"int": int, "float": float, "round": round}[d](v)
+        # timedelta(hours=24).total_seconds()  /  timedelta(...) // timedelta(milliseconds=1)
+        if isinstance(e.func, ast.Attribute) and e.func.attr == "total_seconds" and not e.args and not e.keywords:
+            td = _timedelta_seconds(ctx, mod, e.func.value, env, depth + 1)
+            return td
+        f = next((x for x in ctx.prog.functions.values() if x.module is mod and x.cls is None and x.parent is None and x.name == d), None)
+        if f is not None and not isinstance(f.node, ast.Lambda):
+            body = [st for st in f.node.body if not (isinstance(st, ast.Expr) and isinstance(st.value, ast.Constant))]  # type: ignore[attr-defined]
+            if len(body) == 1 and isinstance(body[0], ast.Return) and body[0].value is not None:
+                names = [p_.name for p_ in f.params]
+                inner: Dict[str, object] = {}
+                for i, a in enumerate(e.args):
+                    if i >= len(names) or isinstance(a, ast.Starred):
+                        return None
+                    v = ev(a)
+                    if v is None:
+                        return None
+                    inner[names[i]] = v
+                for k in e.keywords:
+                    if k.arg is None or k.arg not in names:
+                        return None
+                    v = ev(k.value)
+                    if v is None:
+                        return None
+                    inner[k.arg] = v
+                for p_ in f.params:
+                    if p_.name not in inner:
+                        v = module_const_number(ctx, mod, p_.default, {}, depth + 1)
+                        if v is None:
+                            return None
+                        inner[p_.name] = v
+                return module_const_number(ctx, mod, body[0].value, inner, depth + 1)
+    return None
+
+
+_TD_UNITS = {"weeks": 604800.0, "days": 86400.0, "hours": 3600.0, "minutes": 60.0, "seconds": 1.0, "milliseconds": 1e-3, "microseconds": 1e-6}
+
+
+def _timedelta_seconds(ctx: Ctx, mod, e: ast.AST, env: Dict[str, object], depth: int) -> Optional[float]:
+    if isinstance(e, ast.Call) and (dotted(e.func) or "").split(".")[-1] == "timedelta" and not e.args:
+        tot = 0.0
+        for k in e.keywords:
+            if k.arg not in _TD_UNITS:
+                return None
+            v = module_const_number(ctx, mod, k.value, env, depth + 1)
+            if v is None:
+                return None
+            tot += float(v) * _TD_UNITS[k.arg]
+        return tot
+    return None
